@@ -261,6 +261,30 @@ func (in *inliner) process(fn *ssa.Function) {
 			changed = true
 		}
 	}
+	if !isGeneratedFn(in.p, fn) && os.Getenv("XLINT_NO_BOOLTHREAD") == "" {
+		// `ok := a && b; if !ok {…}`: the branch on a merged boolean is decided on the edges that carry a constant
+		for _, b := range fn.Blocks {
+			if _, isIf := lastInstr(b).(*ssa.If); !isIf || len(b.Preds) < 2 || fn.Recover != nil {
+				continue
+			}
+			if ph, ok := b.Instrs[0].(*ssa.Phi); ok {
+				bt, isB := ph.Type().Underlying().(*types.Basic)
+				if !isB || bt.Info()&types.IsBoolean == 0 {
+					continue
+				}
+				hasConst := false
+				for _, e := range ph.Edges {
+					if _, isC := e.(*ssa.Const); isC {
+						hasConst = true
+					}
+				}
+				if hasConst {
+					in.conts[b] = true
+					changed = true
+				}
+			}
+		}
+	}
 	if changed {
 		renumber(fn)
 		// thread the continuation blocks created above, in block order
